@@ -14,12 +14,23 @@
    Proofs/BundleRoundtrip*.v.  Model = Model/Bundle.v (b_write = Bundle.WriteTo,
    b_read = bundle.Read, x509.ParseCertificate a parameter x509_ok).
 
-   writable b  (boolean): status 100..999; header names non-empty RFC 7230 tokens,
-     pairwise distinct after lower-casing; header values ASCII; exchange URLs
-     decided by the url.Parse model with no fragment / userinfo and valid UTF-8;
-     primary URL: b1 present and decided, b2 optional and absolute; manifest only
-     in b1, absolute; authorities accepted by x509_ok, Authority a uint64; not
-     tainted.
+   The writer refuses what the reader refuses (Response.EncodeHeader: status outside
+   100..999, header names starting with ':' or not ASCII, non-ASCII comma-joined
+   values, names equal after lower-casing; checkURL: exchange URLs that are not UTF-8
+   or have a fragment or credentials, b2 primary / manifest URL not absolute, b1
+   primary URL that does not parse; b1 without primary URL).
+   These are therefore CONSEQUENCES of b_write b = Ok bs (b_write_ok_status,
+   b_write_ok_headers, b_write_ok_urls below) and no premises of the round trip.
+   residual b (boolean) is what the writer does not check and the round trip needs:
+     - negb (b_write_taint b): the URLs the writer tested (exchange URLs, primary,
+       manifest) are decided by the url.Parse model (a restriction of the model,
+       not of the Go code);
+     - signatures: authorities accepted by x509_ok (ESSENTIAL, residual_needs_x509),
+       Authority a uint64 (the Go type).
+   (The b1 primary URL in the header must parse; the writer tests that too now:
+   b_write_ok_b1_primary, ex_b1_bad_primary_refused.)
+   Header names need NOT be RFC 7230 tokens (they may even be empty): the reader
+   only asks for ASCII, lower case, no leading ':' and distinct canonical keys.
    norm b : what the reader returns - same version / primary / manifest /
      signatures; exchanges in index order (ascending encoded URL), per URL either
      the single exchange or (b1) one exchange per possible Variant-Key in
@@ -33,7 +44,7 @@ From WP Require Import Base.Prelude Base.Decimal Model.Cbor Model.Http Model.Url
 From WP Require Import Spec.Cbor Spec.Bundle.
 From WP Require Import Proofs.BaseLemmas Proofs.Variants Proofs.BundleWriteBasics Proofs.BundleWriteForm
   Proofs.BundleWriteWF Proofs.BundleWriteCases Proofs.BundleRoundtripRows Proofs.BundleRoundtripResp
-  Proofs.BundleRoundtripMeta Proofs.BundleRoundtripRead Proofs.BundleRoundtripSig
+  Proofs.BundleWriteOk Proofs.BundleRoundtripMeta Proofs.BundleRoundtripRead Proofs.BundleRoundtripSig
   Proofs.BundleRoundtrip Proofs.BundleRoundtripNorm Proofs.BundleRoundtripIdem.
 Open Scope N_scope.
 
@@ -143,16 +154,65 @@ Theorem load_response_item : forall x,
 Proof. exact BundleRoundtripResp.load_response_item. Qed.
 Print Assumptions load_response_item.
 
+(* ======================= what a successful write implies ============================= *)
+(* Response.EncodeHeader succeeds exactly when the reader can load the item *)
+Theorem encode_header_ok_iff : forall st h,
+  (exists hc, encode_response_header st h = Ok hc) <->
+  (100 <= st <= 999)%Z /\ forallb hdr_writable_b h = true
+  /\ NoDup (status_name :: map (fun nv => lower (fst nv)) h).
+Proof. exact BundleWriteOk.erh_ok_iff. Qed.
+Print Assumptions encode_header_ok_iff.
+
+Theorem b_write_ok_status : forall b bs,
+  b_write b = Ok bs -> Forall (fun x => (100 <= bx_status x <= 999)%Z) (b_exchanges b).
+Proof. exact BundleWriteOk.b_write_ok_status. Qed.
+Print Assumptions b_write_ok_status.
+
+Theorem b_write_ok_headers : forall b bs,
+  b_write b = Ok bs ->
+  Forall (fun x =>
+            Forall (fun nv => (match fst nv with 58 :: _ => False | _ => True end)
+                              /\ is_ascii_b (fst nv) = true
+                              /\ is_ascii_b (join_comma (snd nv)) = true) (bx_hdr x)
+            /\ NoDup (map (fun nv => lower (fst nv)) (bx_hdr x))) (b_exchanges b).
+Proof. exact BundleWriteOk.b_write_ok_headers. Qed.
+Print Assumptions b_write_ok_headers.
+
+Theorem b_write_ok_xwritable : forall b bs,
+  b_write b = Ok bs -> Forall (fun x => xwritable x = true) (b_exchanges b).
+Proof. exact BundleWriteOk.b_write_ok_xwritable. Qed.
+Print Assumptions b_write_ok_xwritable.
+
+Theorem b_write_ok_urls : forall b bs,
+  b_write b = Ok bs ->
+  Forall (fun x => fst (index_url_ok (bx_url x)) = true /\ utf8_valid (bx_url x) = true) (b_exchanges b)
+  /\ (match b_ver b, b_primary b with
+      | BV1, None => False
+      | BV1, Some u => fst (any_url_ok u) = true /\ utf8_valid u = true
+      | BV2, Some u => fst (abs_url_ok u) = true /\ utf8_valid u = true
+      | BV2, None => True end)
+  /\ (match b_manifest b with
+      | Some u => b_ver b = BV1 /\ fst (abs_url_ok u) = true /\ utf8_valid u = true
+      | None => True end).
+Proof. exact BundleWriteOk.b_write_ok_urls. Qed.
+Print Assumptions b_write_ok_urls.
+
+Theorem b_write_ok_b1_primary : forall b bs,
+  b_write b = Ok bs -> b_ver b = BV1 ->
+  exists u, b_primary b = Some u /\ fst (any_url_ok u) = true /\ utf8_valid u = true.
+Proof. exact BundleWriteOk.b_write_ok_b1_primary. Qed.
+Print Assumptions b_write_ok_b1_primary.
+
 (* ======================= the round trip ============================================== *)
 Theorem bundle_roundtrip : forall x509_ok b bs,
-  writable x509_ok b = true -> b_write b = Ok bs -> lenN bs < two63 ->
+  b_write b = Ok bs -> lenN bs < two63 -> residual x509_ok b = true ->
   b_read x509_ok bs = Ok (norm b).
 Proof. exact BundleRoundtripNorm.bundle_roundtrip. Qed.
 Print Assumptions bundle_roundtrip.
 
 (* every URL once: the exchanges come back sorted by encoded URL *)
 Theorem bundle_roundtrip_single : forall x509_ok b bs,
-  writable x509_ok b = true -> single_urls b -> b_write b = Ok bs -> lenN bs < two63 ->
+  b_write b = Ok bs -> lenN bs < two63 -> residual x509_ok b = true -> single_urls b ->
   exists b', b_read x509_ok bs = Ok b' /\
     b_ver b' = b_ver b /\ b_primary b' = b_primary b /\ b_manifest b' = b_manifest b /\
     b_sigs b' = b_sigs b /\ b_taint b' = false /\
@@ -220,19 +280,19 @@ Theorem xnorm_writable : forall x, xwritable x = true -> xwritable (xnorm x) = t
 Proof. exact BundleRoundtripIdem.xnorm_writable. Qed.
 Print Assumptions xnorm_writable.
 
-Theorem norm_idempotent_single : forall x509_ok b,
-  writable x509_ok b = true -> single_urls b -> norm (norm b) = norm b.
+Theorem norm_idempotent_single : forall b bs,
+  b_write b = Ok bs -> single_urls b -> norm (norm b) = norm b.
 Proof. exact BundleRoundtripIdem.norm_idempotent_single. Qed.
 Print Assumptions norm_idempotent_single.
 
-Theorem writable_norm_single : forall x509_ok b,
-  writable x509_ok b = true -> single_urls b -> writable x509_ok (norm b) = true.
-Proof. exact BundleRoundtripIdem.writable_norm_single. Qed.
-Print Assumptions writable_norm_single.
+(* the residue is about URLs and signatures only: it survives normalisation *)
+Theorem residual_norm : forall x509_ok b,
+  residual x509_ok b = true -> residual x509_ok (norm b) = true.
+Proof. exact BundleRoundtripNorm.residual_norm. Qed.
+Print Assumptions residual_norm.
 
 Theorem fixpoint_single : forall x509_ok b bs bs2,
-  writable x509_ok b = true -> single_urls b ->
-  b_write b = Ok bs -> lenN bs < two63 ->
+  b_write b = Ok bs -> lenN bs < two63 -> residual x509_ok b = true -> single_urls b ->
   b_write (norm b) = Ok bs2 -> lenN bs2 < two63 ->
   b_read x509_ok bs = Ok (norm b) /\ b_read x509_ok bs2 = Ok (norm b).
 Proof. exact BundleRoundtripIdem.fixpoint_single. Qed.
@@ -240,8 +300,8 @@ Print Assumptions fixpoint_single.
 
 (* every further write/read cycle reproduces (bs2, norm b) *)
 Theorem cycle_fixpoint : forall x509_ok b bs bs2 n,
-  writable x509_ok b = true -> single_urls b ->
-  b_write b = Ok bs -> lenN bs < two63 -> b_write (norm b) = Ok bs2 -> lenN bs2 < two63 ->
+  b_write b = Ok bs -> lenN bs < two63 -> residual x509_ok b = true -> single_urls b ->
+  b_write (norm b) = Ok bs2 -> lenN bs2 < two63 ->
   cycle x509_ok b = Some (bs, norm b) /\
   Nat.iter n (fun st => match st with Some (_, c) => cycle x509_ok c | None => None end)
            (cycle x509_ok (norm b))
@@ -250,22 +310,22 @@ Proof. exact BundleRoundtripIdem.cycle_fixpoint. Qed.
 Print Assumptions cycle_fixpoint.
 
 (* PARTIAL.  Full statement (b1 variant sets without multi-key Variant-Key entries):
-     writable b = true -> no_multi_key b -> b_write b = Ok bs -> ... ->
-     norm (norm b) = norm b /\ writable (norm b) = true /\ b_read bs2 = Ok (norm b).
-   Proved here with the first two conjuncts as hypotheses (they are discharged by
-   computation in the examples below; for every-URL-once bundles they are
-   norm_idempotent_single / writable_norm_single).  Missing: that
-   entriesInPossibleKeyOrder of an already row-major single-key group is the
-   identity, and that hv_variants / hv_vkey survive xnorm for the members of such
-   a group. *)
+     b_write b = Ok bs -> residual b = true -> no_multi_key b -> ... ->
+     norm (norm b) = norm b /\ exists bs2, b_write (norm b) = Ok bs2 /\ b_read bs2 = Ok (norm b).
+   Proved here with norm (norm b) = norm b and the second write as hypotheses (they
+   are discharged by computation in the examples below; for every-URL-once bundles
+   the first is norm_idempotent_single).  Missing: that entriesInPossibleKeyOrder of
+   an already row-major single-key group is the identity, and that hv_variants /
+   hv_vkey survive xnorm for the members of such a group. *)
 Theorem fixpoint_partial : forall x509_ok b bs2,
-  writable x509_ok (norm b) = true -> norm (norm b) = norm b ->
+  residual x509_ok b = true -> norm (norm b) = norm b ->
   b_write (norm b) = Ok bs2 -> lenN bs2 < two63 ->
   b_read x509_ok bs2 = Ok (norm b).
 Proof.
   intros x509_ok b bs2 W I H L.
   replace (Ok (norm b)) with (Ok (norm (norm b))) by (rewrite I; reflexivity).
-  apply BundleRoundtripNorm.bundle_roundtrip; assumption.
+  apply BundleRoundtripNorm.bundle_roundtrip; [exact H|exact L|].
+  apply BundleRoundtripNorm.residual_norm. exact W.
 Qed.
 Print Assumptions fixpoint_partial.
 
@@ -301,10 +361,32 @@ Definition ex_b2 : bundle :=
                       {| bx_url := s2b "b"; bx_status := 999; bx_hdr := []; bx_body := [0; 255] |} ];
      b_taint := false |}.
 
-Example ex_writable : writable all_ok ex_b1 = true /\ writable all_ok ex_b2 = true /\ single_urls ex_b2.
+(* a b2 bundle whose header names are not RFC 7230 tokens (one is empty): accepted
+   by the writer, and within the theorem *)
+Definition ex_odd : bundle :=
+  {| b_ver := BV2; b_primary := None; b_manifest := None; b_sigs := None;
+     b_exchanges := [ {| bx_url := s2b "https://example.com/odd"; bx_status := 100;
+                         bx_hdr := [(s2b "", [s2b "empty name"]); (s2b "a b(c)", [s2b "x"; s2b "y"])];
+                         bx_body := [7] |} ];
+     b_taint := true |}.
+
+(* the hypotheses of bundle_roundtrip / fixpoint_single hold of these *)
+Example ex_hyps :
+  (exists bs, b_write ex_b1 = Ok bs /\ lenN bs < two63) /\ residual all_ok ex_b1 = true /\
+  (exists bs, b_write ex_b2 = Ok bs /\ lenN bs < two63) /\ residual all_ok ex_b2 = true /\
+  single_urls ex_b2 /\ (exists bs2, b_write (norm ex_b2) = Ok bs2 /\ lenN bs2 < two63) /\
+  (exists bs, b_write ex_odd = Ok bs /\ lenN bs < two63) /\ residual all_ok ex_odd = true.
 Proof.
-  split; [vm_compute; reflexivity|]. split; [vm_compute; reflexivity|].
-  unfold single_urls. vm_compute. repeat constructor; cbn [In]; intuition discriminate.
+  assert (W : forall b, is_ok (b_write b) = true ->
+                        (match b_write b with Ok bs => lenN bs <? two63 | _ => false end) = true ->
+                        exists bs, b_write b = Ok bs /\ lenN bs < two63).
+  { intros b _ H. destruct (b_write b) as [bs| | |]; try discriminate. exists bs.
+    split; [reflexivity|apply N.ltb_lt; exact H]. }
+  split; [apply W; vm_compute; reflexivity|]. split; [vm_compute; reflexivity|].
+  split; [apply W; vm_compute; reflexivity|]. split; [vm_compute; reflexivity|].
+  split; [unfold single_urls; vm_compute; repeat constructor; cbn [In]; intuition discriminate|].
+  split; [apply W; vm_compute; reflexivity|].
+  split; [apply W; vm_compute; reflexivity|vm_compute; reflexivity].
 Qed.
 
 Definition rt (b : bundle) : bool :=
@@ -352,8 +434,9 @@ Proof. vm_compute. reflexivity. Qed.
 (* the theorem's instance, checked by computation as well *)
 Example ex_read_is_norm :
   (match b_write ex_b1 with Ok bs => b_read all_ok bs | _ => Err end) = Ok (norm ex_b1) /\
-  (match b_write ex_b2 with Ok bs => b_read all_ok bs | _ => Err end) = Ok (norm ex_b2).
-Proof. split; vm_compute; reflexivity. Qed.
+  (match b_write ex_b2 with Ok bs => b_read all_ok bs | _ => Err end) = Ok (norm ex_b2) /\
+  (match b_write ex_odd with Ok bs => b_read all_ok bs | _ => Err end) = Ok (norm ex_odd).
+Proof. repeat split; vm_compute; reflexivity. Qed.
 
 (* the cycle: the first write differs from the second (order of exchanges), from
    the second on the bytes are identical - also for the b1 variant set *)
@@ -365,7 +448,7 @@ Example ex_cycle :
   let w3 := write_of r2 in let r3 := read_of w3 in
   (bytes_eqb w1 w2, bytes_eqb w2 w3, lenN w2 =? 0) = (false, true, false) /\
   r1 = norm ex_b1 /\ r2 = r1 /\ r3 = r1 /\
-  writable all_ok (norm ex_b1) = true /\ norm (norm ex_b1) = norm ex_b1.
+  residual all_ok (norm ex_b1) = true /\ norm (norm ex_b1) = norm ex_b1.
 Proof. vm_compute. repeat split. Qed.
 Example ex_cycle_b2 :
   let w1 := write_of ex_b2 in let r1 := read_of w1 in
@@ -381,19 +464,114 @@ Definition ex_multi : bundle :=
                       vx "https://example.com/" "en;br" "ENBR"; vx "https://example.com/" "fr;br" "FRBR" ];
      b_taint := false |}.
 Example ex_multi_key :
-  writable all_ok ex_multi = true /\
+  residual all_ok ex_multi = true /\
   map bx_body (b_exchanges (read_of (write_of ex_multi))) = [s2b "GZ"; s2b "ENBR"; s2b "GZ"; s2b "FRBR"] /\
   b_write (read_of (write_of ex_multi)) = Err.
 Proof. vm_compute. repeat split. Qed.
 
-(* the side conditions of writable are needed: a status outside 100..999 is written
-   but not read back; two names equal after folding are refused by the writer *)
-Example ex_status_needed :
-  let b := {| b_ver := BV2; b_primary := None; b_manifest := None; b_sigs := None;
-              b_exchanges := [{| bx_url := s2b "https://e.com/"; bx_status := 1000; bx_hdr := []; bx_body := [] |}];
-              b_taint := false |} in
-  b_read all_ok (write_of b) = Err /\ writable all_ok b = false.
-Proof. vm_compute. split; reflexivity. Qed.
+(* ==== the writer refuses what the reader refuses ======================================== *)
+Definition one_x (u : string) (st : Z) (h : headers) : bundle :=
+  {| b_ver := BV2; b_primary := None; b_manifest := None; b_sigs := None;
+     b_exchanges := [{| bx_url := s2b u; bx_status := st; bx_hdr := h; bx_body := [1; 2] |}];
+     b_taint := false |}.
+Example ex_writer_refuses :
+  (* a header value with the byte 233 *)
+  b_write (one_x "https://example.com/" 200 [(s2b "x-v", [[99; 97; 102; 233]])]) = Err /\
+  (* the same byte hidden in the second of two values *)
+  b_write (one_x "https://example.com/" 200 [(s2b "x-v", [s2b "a"; [233]])]) = Err /\
+  (* a header name ":foo"; a non-ASCII header name *)
+  b_write (one_x "https://example.com/" 200 [(s2b ":foo", [s2b "a"])]) = Err /\
+  b_write (one_x "https://example.com/" 200 [([110; 233], [s2b "a"])]) = Err /\
+  (* status 99 and 1000 (and a negative one) *)
+  b_write (one_x "https://example.com/" 99 []) = Err /\
+  b_write (one_x "https://example.com/" 1000 []) = Err /\
+  b_write (one_x "https://example.com/" (-200) []) = Err /\
+  (* an exchange URL with a fragment *)
+  b_write (one_x "https://example.com/#f" 200 []) = Err /\
+  (* b2 primary URL "/relative"; with a fragment *)
+  b_write {| b_ver := BV2; b_primary := Some (s2b "/relative"); b_manifest := None; b_sigs := None;
+             b_exchanges := []; b_taint := false |} = Err /\
+  b_write {| b_ver := BV2; b_primary := Some (s2b "https://example.com/#f"); b_manifest := None; b_sigs := None;
+             b_exchanges := []; b_taint := false |} = Err /\
+  (* b1 manifest URL "/relative" *)
+  b_write {| b_ver := BV1; b_primary := Some (s2b "https://example.com/"); b_manifest := Some (s2b "/relative");
+             b_sigs := None; b_exchanges := []; b_taint := false |} = Err /\
+  (* b1 without primary URL: an error, no longer a nil dereference *)
+  b_write {| b_ver := BV1; b_primary := None; b_manifest := None; b_sigs := None;
+             b_exchanges := []; b_taint := false |} = Err /\
+  (* an exchange URL that is not valid UTF-8: an error, no longer a panic *)
+  b_write {| b_ver := BV2; b_primary := None; b_manifest := None; b_sigs := None;
+             b_exchanges := [{| bx_url := [97; 58; 255]; bx_status := 200; bx_hdr := []; bx_body := [] |}];
+             b_taint := false |} = Err /\
+  (* the neighbours are accepted *)
+  is_ok (b_write (one_x "https://example.com/" 100 [(s2b "x-v", [s2b "caf"; s2b "e"])])) = true /\
+  is_ok (b_write (one_x "https://example.com/" 999 [(s2b "f:oo", [s2b "a"])])) = true.
+Proof. vm_compute. repeat split. Qed.
+
+(* MODEL NOTE.  "https://u:p@example.com/" (credentials) lies outside the class on
+   which the url.Parse model is decided (url_ref answers RUnknown): the model's
+   writer lets it pass and flags the answer as not trusted (b_write_taint; the
+   reader flags b_taint likewise).  The Go writer refuses it (parsed.User != nil).
+   Inside the decided class url_ref never reports credentials. *)
+Example ex_credentials_undecided :
+  let b := one_x "https://u:p@example.com/" 200 [] in
+  url_ref (s2b "https://u:p@example.com/") = RUnknown /\
+  is_ok (b_write b) = true /\ b_write_taint b = true /\ residual all_ok b = false.
+Proof. vm_compute. repeat split. Qed.
+
+(* ==== the residue is needed ================================================================ *)
+(* REPAIRED (was residual_needs_b1_primary, confirmed on the Go code): a b1 bundle whose
+   primary URL, as serialized by url.URL.String(), does not parse - &url.URL{Opaque: "%zz"}
+   (invalid URL escape) or &url.URL{Opaque: ":foo"} (missing protocol scheme) - used to
+   be written and could not be read.  writePrimaryURL runs checkURL now: refused. *)
+Definition ex_b1_bad_primary (u : string) : bundle :=
+  {| b_ver := BV1; b_primary := Some (s2b u); b_manifest := None; b_sigs := None;
+     b_exchanges := [{| bx_url := s2b "https://example.com/"; bx_status := 200;
+                        bx_hdr := [hd1 "Content-Type" "text/html"]; bx_body := s2b "<p>" |}];
+     b_taint := false |}.
+Example ex_b1_bad_primary_refused :
+  b_write (ex_b1_bad_primary "%zz") = Err /\ b_write (ex_b1_bad_primary ":foo") = Err /\
+  b_write_taint (ex_b1_bad_primary "%zz") = false /\
+  (* a relative, fragment-carrying primary URL is fine in the b1 header *)
+  (match b_write (ex_b1_bad_primary "/rel#frag") with Ok bs => b_read all_ok bs | _ => Err end)
+  = Ok (norm (ex_b1_bad_primary "/rel#frag")).
+Proof. vm_compute. repeat split. Qed.
+
+(* ESSENTIAL (Go): a signatures section with an authority whose certificate bytes
+   x509.ParseCertificate rejects (Cert.Raw = 01 02 03): written, not read back. *)
+Definition ex_sigs (a : N) : bundle :=
+  {| b_ver := BV2; b_primary := None; b_manifest := None;
+     b_sigs := Some {| sg_auth := [{| ac_cert := [1; 2; 3]; ac_ocsp := Some [4]; ac_sct := None |}];
+                       sg_vouched := [{| vs_authority := a; vs_sig := [9; 9]; vs_signed := [7] |}] |};
+     b_exchanges := []; b_taint := false |}.
+Theorem residual_needs_x509 :
+  exists x509_ok b bs, b_write b = Ok bs /\ lenN bs < two63 /\
+    b_write_taint b = false /\ residual x509_ok b = false /\ residual all_ok b = true /\
+    b_read x509_ok bs = Err /\ b_read all_ok bs = Ok (norm b).
+Proof.
+  exists (fun _ => false), (ex_sigs 0).
+  destruct (b_write (ex_sigs 0)) as [bs| | |] eqn:E; try (vm_compute in E; discriminate).
+  exists bs. split; [reflexivity|]. vm_compute in E. inversion E; subst bs.
+  split; [vm_compute; reflexivity|]. repeat split; vm_compute; reflexivity.
+Qed.
+Print Assumptions residual_needs_x509.
+
+(* MODEL ONLY: Authority is a uint64 in Go; in the model 2^64 is written as 0 *)
+Example ex_authority_u64 :
+  match b_write (ex_sigs two64) with Ok bs => b_read all_ok bs | _ => Err end = Ok (norm (ex_sigs 0))
+  /\ residual all_ok (ex_sigs two64) = false /\ residual all_ok (ex_sigs (two64 - 1)) = true.
+Proof. vm_compute. repeat split. Qed.
+
+(* MODEL ONLY: a URL outside the decided class comes back flagged (b_taint = true),
+   so the result is not norm b; everything else is *)
+Example ex_undecided_url_tainted :
+  let b := one_x "https://u:p@example.com/" 200 [] in
+  match b_write b with Ok bs => b_read all_ok bs | _ => Err end
+  = Ok {| b_ver := b_ver (norm b); b_primary := b_primary (norm b); b_manifest := b_manifest (norm b);
+          b_sigs := b_sigs (norm b); b_exchanges := b_exchanges (norm b); b_taint := true |}.
+Proof. vm_compute. reflexivity. Qed.
+
+(* the input's own b_taint flag is irrelevant (ex_odd above carries b_taint = true) *)
 
 (* refusals *)
 Example ex_refused :
